@@ -70,6 +70,22 @@ NOTES = {
     'C17r3': 'the signature time-cache key made comparable again (as C08 / C11 round 1): missed by the C17 check at first (its '
              'histories asked get_names / imports / search, not signatures at one call site) while the C08 and C11 checks caught '
              'it; C17 now has buffer histories with get_signatures after every edit, judged by Trace_SigFaithful.tla',
+    'C01r3': 'missed at first (no buffer whose values mix objects of the buffer with builtins); caught after two such programs '
+             'were added to Text.tla (the unedited programs are now always emitted); adding them exposed two more genuine crashes '
+             'on the unchanged tree (get_type_hint of a function passed to itself; completion in the blanks after a dot), both fixed',
+    'C07r3': 'missed at first (no module of the project referred to itself, so the renamed file never changed); caught after '
+             'helper_mod / pkg_one.sub_mod import themselves by absolute name; the new inputs also showed that the FilesDisagree '
+             'clause was too strict for changed files below a renamed directory (false alarm of the check, corrected)',
+    'C08r3': 'caught as it stood (random editing histories with block indents / pastes vs fresh processes)',
+    'C09r3': 'caught as it stood (one long-lived helper per server process: stale directory listing)',
+    'C12r3': 'caught as it stood (auto-import name with a project-only explicit sys_path)',
+    'C14r3': 'caught as it stood (crash campaign: KeyError instead of InternalError after the re-spawn)',
+    'C16r3': 'third time the added_sys_path aliasing; caught by the package-project source (import completion after import '
+             'inference) added while the trial was queued',
+    'C18r3': 'missed at first (the default project root cached per directory: full_name keeps the old module path after '
+             '__init__.py files are added); caught after the full_name package-history leg (Trace_FullNameHist.tla)',
+    'C19r3': 'caught as it stood (adjacent ignored directories)',
+    'C20r3': 'caught as it stood (duplicate entries: order clause)',
     'C20r2': 'same aliasing as C09 (round 1); caught by the path clauses; the settings-unchanged-by-use clauses (p2 / rt2) '
              'were added as well',
 }
